@@ -88,7 +88,7 @@ T_Yield == /\ IsEvent("yield")
 
 T_Advance == /\ IsEvent("advance")
              /\ G("adv.free", cur = None)
-             /\ G("adv.pending", Pending # {})
+             /\ G(IF \E i \in DOMAIN tmr : act[tmr[i].a].pc = "failed" THEN "adv.pending.failed" ELSE "adv.pending", Pending # {})
              /\ Advance
              /\ G("adv.vt", now' = E.vt)
              /\ UNCHANGED <<cur, yl>>
@@ -106,8 +106,10 @@ T_OpBegin == /\ IsEvent("op_begin")
                 /\ RunIssue(c, o)
 
 \* (a liveness query about an actor that FAILED implicates failure visibility, C06, besides C14)
-ResGuard(op, L) == IF op \in {"stopped", "running", "try_from_registry", "already_running"} /\ L.a \in Actor /\ act[L.a].pc = "failed"
-                   THEN "oe.res." \o op \o ".failed" ELSE "oe.res." \o op
+ResGuard(op, L) == IF L.a \in Actor /\ act[L.a].pc = "failed"
+                   THEN (IF op \in {"stopped", "running", "try_from_registry", "already_running"} THEN "oe.res." \o op \o ".failed"
+                         ELSE "oe.res.failed." \o act[L.a].why)
+                   ELSE "oe.res." \o op
 LastMatches(op, L) == /\ G(ResGuard(op, L), L.res = E.res)
                       /\ G("oe.val." \o op, L.res \notin {"ok", "some"} \/ (L.pos = E.pos /\ L.inst = E.inst))
                       /\ G("oe.actor." \o op, E.a = "*" \/ L.a = E.a)
@@ -145,7 +147,7 @@ T_Cb == /\ IsEvent("cb")
                                                 /\ ~act[a].pbseen)
                           /\ act' = [act EXCEPT ![a].pbseen = TRUE] /\ UNCHANGED <<hnd, cli, rsp, tmr, reg, now, hst, cur, yl>>
                      ELSE /\ (IF act[a].pc # "failed" THEN TRUE ELSE G("cb.pb.failed", FALSE))     \* the graceful epilogue on a failure path
-                          /\ (IF ~(act[a].pc = "idle" /\ act[a].mq # <<>>) THEN TRUE ELSE G("cb.pb.undrained", FALSE))   \* stopping with accepted messages still queued
+                          /\ (IF ~(act[a].pc = "idle" /\ act[a].mq # <<>>) THEN TRUE ELSE G("cb.pb.undrained." \o Head(act[a].mq).src, FALSE))   \* stopping with accepted messages still queued
                           /\ G(IF HeldAsChild(a) THEN "cb.pb.child" ELSE "cb.pb",
                                (act[a].pc = "dequeued" /\ act[a].curp.k \in {"stop", "restart"}) \/ (act[a].pc = "idle" /\ act[a].mq = <<>> /\ ~ChanOpen(a)))
                           /\ RunLoop(a)
@@ -169,7 +171,9 @@ T_Cb == /\ IsEvent("cb")
 T_HBegin == /\ IsEvent("h_begin")
             /\ LET a == E.task IN
                /\ G("hb.cur", cur = a /\ ~yl)
-               /\ G("hb.phase." \o E.src, act[a].pc = "dequeued" /\ act[a].curp.k = "task" /\ act[a].curp.rs # "ping")
+               \* (a handler running on an actor that has FAILED: named after the failure, e.g. a timeout that should have been fatal)
+               /\ G(IF act[a].pc = "failed" THEN "hb.phase.failed." \o act[a].why ELSE "hb.phase." \o E.src,
+                    act[a].pc = "dequeued" /\ act[a].curp.k = "task" /\ act[a].curp.rs # "ping")
                /\ G("hb.fifo." \o E.src, act[a].curp.m = E.m /\ act[a].curp.src = E.src)
                /\ G("hb.inst", act[a].inst = E.inst /\ act[a].inc = E.inc)
                /\ RunLoop(a)
@@ -209,7 +213,7 @@ T_Eff == /\ IsEvent("eff")
 T_TimerFire == /\ IsEvent("timer_fire")
                /\ LET i == E.task IN
                   /\ G("tf.cur", cur = i /\ ~yl /\ i \in DOMAIN tmr)
-                  /\ G("tf.state", tmr[i].st = "sleeping")          \* not aborted / ended: the actor (incarnation) is alive
+                  /\ G(IF act[tmr[i].a].pc = "failed" THEN "tf.state.failed" ELSE "tf.state", tmr[i].st = "sleeping")   \* not aborted / ended: the actor (incarnation) is alive
                   /\ G("tf.due", now >= tmr[i].dl)                   \* not before its period / delay
                   /\ G("tf.k", tmr[i].k + 1 = E.k)
                   /\ TimerFire(i) /\ UNCHANGED <<cur, yl>>
